@@ -172,6 +172,48 @@ func (w *W) c11MakeDoc(r *gen.Rand, name string, text []byte, nd bool, edits int
 	return &c11Doc{name: name, pj: pj, model: model, dump: dumpRoots(model)}
 }
 
+// c11DeletedRunAt: [true x n, victim, true x 300] with the victim deleted through Array.DeleteElems.
+// Every entry before the victim is one tag, so the victim's first entry is tag n+2 of the stream.
+func (w *W) c11DeletedRunAt(r *gen.Rand, k int) *c11Doc {
+	victim, span := "["+strings.Repeat("7,", 99)+"7]", 202
+	if k%12 == 7 {
+		victim, span = "12345", 2
+	}
+	first := 65536 - r.Intn(span+1) // tag index of the first deleted entry: the run covers [first, first+span)
+	n := first - 2
+	text := []byte("[" + strings.Repeat("true,", n) + victim + strings.Repeat(",true", 300) + "]")
+	a := ref.Analyze(text)
+	if a.Class != ref.MustAccept {
+		return nil
+	}
+	p, err, pan := w.parseGuarded(text, w.configs()[r.Intn(len(w.configs()))], false, false)
+	if err != nil || pan != nil {
+		return nil
+	}
+	pj := p.Clone(nil)
+	perr := walk.Guard(func() error {
+		it, err := locateInto(pj, Loc{})
+		if err != nil {
+			return err
+		}
+		arr, err := it.Array(nil)
+		if err != nil {
+			return err
+		}
+		i := 0
+		arr.DeleteElems(func(simdjson.Iter) bool { i++; return i-1 == n })
+		return nil
+	})
+	if perr != nil {
+		return nil
+	}
+	model := []*ref.Value{a.Value}
+	modelDelete(model[0], map[int]bool{n: true})
+	w.Count("source_tapes_with_deletions", 1)
+	w.Count("source_tapes_with_a_deleted_run_at_the_64Ki_tag_boundary", 1)
+	return &c11Doc{name: fmt.Sprintf("deleted-run-at-tag-%d+%d", first, span), pj: pj, model: model, dump: dumpRoots(model)}
+}
+
 // c11Docs builds the pool of source tapes for one program.
 func (w *W) c11Docs(r *gen.Rand, k int) []*c11Doc {
 	var out []*c11Doc
@@ -231,6 +273,10 @@ func (w *W) c11Docs(r *gen.Rand, k int) []*c11Doc {
 		n := 64<<10 + r.Intn(5) - 2
 		add(w.c11MakeDoc(r, "tags-64k", []byte("["+strings.Repeat("true,", n-3)+"true]"), false, 0))
 		add(w.c11MakeDoc(r, "values-64k", []byte("["+strings.Repeat("1,", (64<<10)/8+r.Intn(5)-2)+"1]"), false, 0))
+	case 6, 7:
+		// a deleted run (a nested array of 100 numbers: 202 deleted entries; or one number: 2) that
+		// straddles the serializer's 65536-tag block boundary at a seeded position, or starts/ends on it
+		add(w.c11DeletedRunAt(r, k))
 	case 3:
 		add(w.c11MakeDoc(r, "big", gen.Doc(r.Split(), gen.DocCfg{Size: 300 << 10, MaxDepth: 6, MaxFan: 12, WS: 1, Esc: 20, LongStr: 10, DupKeys: true}), false, r.Intn(4)))
 	case 4:
